@@ -272,7 +272,12 @@ def run_witness(code):
     """run a known finding's witness natively (overlay interpreter, fresh process); True iff the defect still shows"""
     import subprocess
 
-    p = subprocess.run([sys.executable, "-c", code], capture_output=True, text=True, timeout=120)
+    from .repo import REPO_SRC
+
+    env = dict(os.environ)
+    if REPO_SRC != "/repo/src":
+        env["PYTHONPATH"] = REPO_SRC + (os.pathsep + env["PYTHONPATH"] if env.get("PYTHONPATH") else "")      # (scratch trees: same tree as the VCs)
+    p = subprocess.run([sys.executable, "-c", code], capture_output=True, text=True, timeout=120, env=env)
     return p.returncode == 0 and p.stdout.strip().endswith("DEFECT-PRESENT"), (p.stdout + p.stderr)[-500:]
 
 
@@ -357,7 +362,9 @@ def run_property(pid, tier="quick", seed=0, jobs=None, extra=None):
         try:
             reports = importlib.import_module(bmod).run(E, tier)
         except Exception as ex:  # noqa
-            extra.setdefault("engine", []).append("bounded stand-in %s crashed: %s: %s" % (bmod, type(ex).__name__, ex))
+            # the stand-in runs the REAL code natively and is known to finish on the unchanged tree (every run): if it cannot finish, the code no
+            # longer offers what it drives - not covered (undecided), and no reason to hide what the contracts found
+            extra.setdefault("undecided", []).append("bounded stand-in %s could not run on this code: %s: %s" % (bmod, type(ex).__name__, ex))
             reports = []
         extra.setdefault("bounded", []).extend(reports)
         for rep in reports:
